@@ -487,9 +487,10 @@ func (fr *Frame) execBinOp(x *ssa.BinOp, reach string, h Heap) {
 		if !so.bv && x.Op == token.OR {
 			// a<<k | b with b < 2^k: disjoint bits
 			if r, cond, ok := fr.orDisjoint(x, a, b); ok && !u.nowrap {
-				fr.havocVal(x, h) // wrap mode: the value of | is left unconstrained (within the type's range)
-				_ = r
-				_ = cond
+				// wrap mode: | is + when the operands have disjoint bits, otherwise unconstrained (within the type's range)
+				fr.havocVal(x, h)
+				any := fr.vals[x].T
+				fr.setVal(x, ite(cond, r, any))
 				return
 			} else if ok {
 				if cond != "true" {
